@@ -37,11 +37,11 @@ CLAIMED = {
             "TLC enumerates every delegation graph within the bounds (incl. terminating flags, the loadable cycle through a rule named like the primary file, and duplicate-name diamonds refused at load) and proves the coded grouped work-queue consults exactly the documented set, each rule once, and halts within the step bound; graphs are materialised as real v01/v02 rule files with git:/file: patterns, FindVerifiersForPath is called for a covering set of paths, and TLC compares names, thresholds and principals of the returned verifiers with the documented walk.",
             "Bounds: at most 3 files and 3 rules in total exhaustively; pattern semantics limited to literal / prefix-glob / catch-all (table checked against fnmatch).",
             "DESIGN.md section 4 C06"),
-    "C01": ("Verify.tla, MC_Verify.tla (families core/recovery/global/nopolicy), Trace_Verify.tla",
-            "TLC enumerates every log up to the family bounds (policy updates, pushes by authorised / de-authorised / unknown / no key, approvals bound to a change, skip annotations, propagation and staging entries, force pushes, global rules) and proves that the coded entry-queue workflow without deviations returns exactly the documented verdict (every unrevoked entry authorised by the policy state immediately preceding it, repaired violations need an authorised fix); sampled logs are concretised into real repositories (signed metadata, SSH-signed entries and commits, real attestations), VerifyRefFull runs, and TLC judges verdict and tip; accepted-but-unauthorised histories are attributed to listed deviations or reported.",
+    "C01": ("Verify.tla, MC_Verify.tla (families core/recovery/global/nopolicy/window/tworec/long), Trace_Verify.tla",
+            "TLC enumerates every log up to the family bounds (policy updates, pushes by authorised / de-authorised / unknown / no key, approvals bound to a change, skip annotations, propagation and staging entries, force pushes, global rules) and proves that the coded entry-queue workflow without deviations returns exactly the documented verdict (every unrevoked entry authorised by the policy state immediately preceding it, repaired violations need an authorised fix); sampled logs are concretised into real repositories (signed metadata, SSH-signed entries and commits, real attestations), VerifyRefFull runs, and TLC judges verdict and tip; accepted-but-unauthorised histories are attributed to listed deviations or reported. Beyond the exhaustive bounds, shape-guided families (a policy change between a revoked violation and its fix; two recoveries) are enumerated completely and random histories of 14 entries are generated by TLC in simulation mode, with the refinement invariants evaluated on every state visited and every complete history replayed.",
             "Principals hold one key each; policy chains are valid (C02); two references, thresholds 1..2, one delegation level in the model's policy table; replay is on the in-memory store.",
             "DESIGN.md section 4 C01"),
-    "C07": ("Verify.tla (recovery sub-machine), MC_Verify.tla (recovery/core), Trace_Verify.tla (Prop=C07)",
+    "C07": ("Verify.tla (recovery sub-machine), MC_Verify.tla (recovery/core/window/tworec/long), Trace_Verify.tla (Prop=C07)",
             "TLC enumerates logs in which entries are independently valid or violating, skipped by annotations placed anywhere later (one annotation possibly covering two entries), tree-same or not to the last good state, interleaved with policy and attestation entries, and proves the coded recovery loop (as built: fix not re-verified) tolerates exactly the violations that are revoked and repaired as documented; sampled logs are replayed against VerifyRefFull and judged by TLC.",
             "Same concretisation limits as C01.",
             "DESIGN.md section 4 C07"),
@@ -61,16 +61,16 @@ CLAIMED = {
             "TLC explores every sequence of rule-file and root edits with valid and invalid arguments up to the bound and proves well-formedness inductive over accepted edits and refused edits without effect; one history per distinct state is replayed on tufv02 and tufv01 objects, and TLC checks after every edit the acceptance, the well-formedness of the observed metadata and the equality of the live, reloaded and migrated projections.",
             "Rule-name uniqueness across files, propagation directives and controller/network edits are not modelled yet.",
             "DESIGN.md section 4 C13"),
-    "C20": ("Sandbox.tla, MC_Sandbox.tla, Trace_Sandbox.tla",
-            "TLC checks that the construction sequence of the sandbox (open libraries, remove globals and members, protect tables, register APIs) leaves only pure library members, inert data and registered APIs reachable, with every library table protected, and that omitting any single effective step breaks this; the real environment is walked from the Go side and compared with the model's closure, and every program of the escape / table-write / non-termination / return-value grammar is rendered to Lua and run through RunScript with a 1 s timeout under a hard outer deadline, TLC judging denial, deadline and exit code.",
-            "Purity of allow-listed functions trusted; hook selection per principal not yet exercised; needs the verif accessor for the interpreter state.",
+    "C20": ("Sandbox.tla, MC_Sandbox.tla, Trace_Sandbox.tla, MC_HookSel.tla, Trace_HookSel.tla",
+            "TLC checks that the construction sequence of the sandbox (open libraries, remove globals and members, protect tables, register APIs) leaves only pure library members, inert data and registered APIs reachable, with every library table protected, and that omitting any single effective step breaks this; the real environment is walked from the Go side and compared with the model's closure, and every program of the escape / table-write / non-termination / return-value grammar is rendered to Lua and run through RunScript with a 1 s timeout under a hard outer deadline, TLC judging denial, deadline and exit code. Hook selection (MC_HookSel.tla, Trace_HookSel.tla): every set of up to 2-3 hooks over two stages and three principals (one a person with two keys) is built as a policy in a real repository and InvokeHooksForStage is called with every key; TLC judges that exactly the hooks assigned to the key's owner for the stage ran.",
+            "Purity of allow-listed functions trusted; pre-push stage declared but not invoked; needs the verif accessor for the interpreter state.",
             "DESIGN.md section 4 C20"),
     "C12": ("PolicyApply.tla, MC_PolicyApply.tla, Trace_PolicyApply.tla",
             "TLC explores every sequence of root-of-trust edits by root principals and outsiders, signatures, apply, discard and direct tampering with the policy / staging refs up to the bound and checks that only Apply moves the policy ref, only to a self-valid staged descendant, never when a ref is out of sync, that outsiders cannot edit the root and that whatever Apply publishes stays loadable; emitted histories are replayed through experimental/gittuf.Repository on real Git repositories and TLC judges what was observed after every step.",
             "Root edits only; real git with ssh-keygen based signers, so the replayed sample is small in the quick tier.",
             "DESIGN.md section 4 C12"),
     "C08": ("Verify.tla, VerifyCache.tla, MC_VerifyCache.tla, Trace_VerifyCache.tla",
-            "TLC explores every sequence of Grow / Populate / Delete / Verify(full, latest) actions up to the bound and proves that with an ideal cache (complete policy lookup, checkpoints only from full verification) every Verify answers what the cache-less verifier answers; action sequences are replayed on a real repository whose every Verify is also run on a cache-less copy, with all references listed before and after, and TLC judges equality of verdict and tip and attributes differences to the listed cache deviations.",
+            "TLC explores every sequence of Grow / Populate / Delete / Verify(full, latest) actions up to the bound and proves that with an ideal cache (complete policy lookup, checkpoints only from full verification) every Verify answers what the cache-less verifier answers; action sequences are replayed on a real repository whose every Verify is also run on a cache-less copy, with all references listed before and after, and TLC judges equality of verdict and tip, requires the cache-less copy's own answer to be the model's as well, and attributes differences to the listed cache deviations; histories with revoked policy entries are always replayed, and recovery histories beyond the bound (violation, revocation, optional second violation, fix, repeated verification, cache populated at every point) are replayed as fixed shapes.",
             "One reference, key-disjoint principals, chain-valid policies; the attestation index of the cache is modelled but not stressed.",
             "DESIGN.md section 4 C08"),
     "C10": ("Trees.tla, MC_Trees.tla, Trace_Trees.tla",
@@ -78,7 +78,7 @@ CLAIMED = {
             "File rules with threshold 1 (no approvals); newline excluded (as in the property); sampled, not exhaustive, on the real-Git side.",
             "DESIGN.md section 4 C10"),
     "C15": ("Reconcile.tla, MC_Reconcile.tla, Trace_Reconcile.tla",
-            "TLC enumerates every pair of logs sharing a prefix with local-only and remote-only suffixes of reference entries, propagation entries and skip annotations (naming shared or local-only entries) on two references, and proves that re-recording as designed yields exactly the remote log followed by the local-only entries with their meaning (same reference and target, annotations still naming - and still skipping - the re-recorded counterparts), refuses conflicts without effect, and that synchronisation under every branch placement and both overwrite settings moves references only to recorded states, never rewinds unless told to, only extends the remote log and publishes entries together with their references; the log pairs are built in two real repositories, ReconcileLocalRSLWithRemote and Sync run through experimental/gittuf, and TLC judges the logs and references read back.",
+            "TLC enumerates every pair of logs sharing a prefix with local-only and remote-only suffixes of reference entries (new commits or resets to earlier ones), propagation entries, skip annotations and plain notes (naming shared or local-only entries) on two references, and proves that re-recording as designed yields exactly the remote log followed by the local-only entries with their meaning (same reference and target, annotations still naming - and still skipping - the re-recorded counterparts), refuses conflicts without effect, and that synchronisation under every branch placement and both overwrite settings moves references only to recorded states, never rewinds unless told to, only extends the remote log and publishes entries together with their references; the log pairs are built in two real repositories, ReconcileLocalRSLWithRemote and Sync run through experimental/gittuf, and TLC judges the logs and references read back.",
             "Bare repositories over the file transport, unsigned entries, no tags; a sampled subset is replayed on real Git.",
             "DESIGN.md section 4 C15"),
     "C18": ("Propagation.tla, MC_Propagation.tla, Trace_Propagation.tla",
@@ -87,7 +87,7 @@ CLAIMED = {
             "DESIGN.md section 4 C18"),
     "C19": ("Verify.tla (MergePredictI, MergeIdeal, MergeAgrees), MC_Verify.tla (family merge, C19Agrees), Trace_Verify.tla (Prop=C19)",
             "TLC enumerates policies with delegation thresholds 1..3 and a global threshold rule, approvals by every subset of principals bound to the predicted change, and feature trees, and proves that the ideal prediction agrees with verification of the merge for every recorder (authorised, already counted, unauthorised, unknown key, unsigned); on real repositories VerifyMergeableForCommit is asked, then every recorder records the merge on a copy and verifies it, and TLC judges the agreement and attributes disagreements to the listed deviations.",
-            "Fast-forward merges only (the recorded commit carries the predicted tree); file rules and code-review approvals are not in the merge family yet.",
+            "Fast-forward merges only (the recorded commit carries the predicted tree). With file rules the question is asked for the commit graphs of MC_Trees on real repositories (unprotected branch, so that only the file rule decides) before the commits are recorded and compared with verification afterwards; attestation states mix authorizations and code-review approvals.",
             "DESIGN.md section 4 C19"),
 }
 
